@@ -50,14 +50,17 @@ dr_clock_t (*dr_verif_clock)(void) = vclock_read;
 /* ------------------------------------------------------------------ traps: a failed dr_check calls exit(1), an
  * assert calls __assert_fail; inside a case both come back here so that one abort does not end the enumeration.
  * (Signals are handled one level up: the pool re-forks a worker that died and continues behind the case.) */
-static jmp_buf trap_env; static volatile int trap_armed; static char trap_msg[400];
+static jmp_buf trap_env; static volatile int trap_armed; static char trap_msg[400], trap_cls[100];
 void exit(int code) {
   if (trap_armed) { trap_armed = 0; snprintf(trap_msg, sizeof trap_msg, "exit(%d)", code); longjmp(trap_env, 2); }
   fflush(NULL); _exit(code);
 }
 void __assert_fail(const char * e, const char * f, unsigned l, const char * fn) {
   const char * b = strrchr(f, '/'); b = b ? b + 1 : f;
-  if (trap_armed) { trap_armed = 0; snprintf(trap_msg, sizeof trap_msg, "assertion `%s' failed in %s (%s:%u)", e, fn, b, l); longjmp(trap_env, 3); }
+  if (trap_armed) {
+    trap_armed = 0; snprintf(trap_msg, sizeof trap_msg, "assertion `%s' failed in %s (%s:%u)", e, fn, b, l);
+    snprintf(trap_cls, sizeof trap_cls, "abort:assert:%s:%s", fn, e); longjmp(trap_env, 3);
+  }
   fprintf(stderr, "assert %s %s:%u\n", e, f, l); fflush(NULL); _exit(66);
 }
 
@@ -450,6 +453,7 @@ typedef struct {
   int verbose;
 } case_t;
 static case_t CASE;
+static int WANT_STAT, WANT_DAG;   /* which files dr_dump() is to write (set by the component) */
 static char SCRATCH[200];      /* file prefix handed to the recorder: build/<comp>/scratch/w<k> */
 
 /* hook stream: what the recorder tells the user about every interval */
@@ -468,7 +472,7 @@ static void replay_script(void) {
   dr_options opts[1];
   *opts = dr_options_default_values;              /* not dr_options_default(): the environment must not leak in */
   opts->dag_file_prefix = SCRATCH;
-  opts->dag_file_yes = 0; opts->stat_file_yes = 0; opts->gpl_file_yes = 0; opts->dot_file_yes = 0; opts->text_file_yes = 0;
+  opts->dag_file_yes = WANT_DAG; opts->stat_file_yes = WANT_STAT; opts->gpl_file_yes = 0; opts->dot_file_yes = 0; opts->text_file_yes = 0;
   opts->uncollapse_min = CASE.opt.umin; opts->collapse_max = CASE.opt.cmax; opts->collapse_max_count = CASE.opt.cc;
   opts->node_count_target = CASE.opt.nct; opts->prune_threshold = CASE.opt.pt;
   opts->alloc_unit_mb = 0;                        /* smallest node pages: a case needs a few dozen nodes, not megabytes */
@@ -544,12 +548,18 @@ static void found(const char * cls, const char * extra, const char * fmt, ...) {
   snprintf(f->args, sizeof f->args, "--case '%s'", CASE.key);
 }
 /* what the recorder wrote to stderr / stdout during the case (both go to the worker's log file) */
-static int LOGFD = -1;
-static void log_reset(void) { if (LOGFD >= 0) { fflush(NULL); if (ftruncate(LOGFD, 0)) {} } }
+static int LOGFD = -1; static off_t LOGOFF;
+static void log_reset(void) {
+  if (LOGFD < 0) return;
+  fflush(NULL); LOGOFF = lseek(LOGFD, 0, SEEK_END);
+  if (LOGOFF > (1 << 20)) { if (ftruncate(LOGFD, 0)) {} LOGOFF = 0; }
+}
+/* what was written since log_reset (newlines become blanks); 0 when nothing */
 static int log_read(char * b, size_t n) {
   b[0] = 0; if (LOGFD < 0) return 0;
   fflush(NULL);
-  ssize_t r = pread(LOGFD, b, n - 1, 0); if (r < 0) r = 0; b[r] = 0;
+  if (lseek(LOGFD, 0, SEEK_END) <= LOGOFF) return 0;
+  ssize_t r = pread(LOGFD, b, n - 1, LOGOFF); if (r < 0) r = 0; b[r] = 0;
   for (ssize_t i = 0; i < r; i++) if (b[i] == '\n') b[i] = ' ';
   return (int)r;
 }
@@ -562,7 +572,7 @@ static void case_key(void) {
   opt_str(&CASE.opt, ob, sizeof ob);
   sb[0] = 0; for (int i = 0; i < s->nch; i++) o += snprintf(sb + o, sizeof sb - o, "%s%d", i ? "." : "", s->ch[i]);
   if (!s->nch) strcpy(sb, "-");
-  snprintf(CASE.key, sizeof CASE.key, "P=%s T=%d/%d B=%c W=%d S=%s(%s) O=%s F=%d", CASE.p->str, CASE.tm.pat, CASE.tm.gap, CASE.imp ? 'i' : 'e',
+  snprintf(CASE.key, sizeof CASE.key, "P=%s T=%d/%d B=%c W=%d S=%s(%s) O=%s F=%d", CASE.p->str[0] ? CASE.p->str : "(root-only)", CASE.tm.pat, CASE.tm.gap, CASE.imp ? 'i' : 'e',
 	   CASE.W, sb, s->nsteal ? s->steals : "no-steal", ob, CASE.nf);
 }
 /* one case: replay under the trap, let the component judge, clean up.  A failed internal check of the recorder
@@ -590,15 +600,15 @@ static void run_case(void) {
     if (how == 2) {            /* exit(): dr_check_ printed  file:line:func: dag recorder check failed : cond */
       char * q = strstr(lg, "dag recorder check failed");
       if (q) {
-	char * fn = lg; char * cond = q + strlen("dag recorder check failed : ");
-	char * b = strrchr(lg, '/'); if (b && b < q) fn = b + 1;
-	char fnb[120]; snprintf(fnb, sizeof fnb, "%.*s", (int)(q - fn), fn);
-	for (char * z = fnb + strlen(fnb) - 1; z >= fnb && (*z == ' ' || *z == ':'); z--) *z = 0;
+	char pre[200]; snprintf(pre, sizeof pre, "%.*s", (int)(q - lg), lg);
+	for (char * z = pre + strlen(pre) - 1; z >= pre && (*z == ' ' || *z == ':'); z--) *z = 0;
+	char * fn = strrchr(pre, ':'); fn = fn ? fn + 1 : pre;
+	char * cond = q + strlen("dag recorder check failed : ");
 	for (char * z = cond + strlen(cond) - 1; z >= cond && *z == ' '; z--) *z = 0;
-	snprintf(cls, sizeof cls, "abort:dr_check:%s:%s", fnb, cond);
+	snprintf(cls, sizeof cls, "abort:dr_check:%s:%s", fn, cond);
       } else snprintf(cls, sizeof cls, "abort:exit");
       site = lg;
-    } else snprintf(cls, sizeof cls, "abort:assert:%.80s", trap_msg);
+    } else snprintf(cls, sizeof cls, "%s", trap_cls);
     for (char * z = cls; *z; z++) if (*z == ' ') *z = '_';
     found(cls, CASE.chk ? " chk_level=1" : " chk_level=0", "the recorder aborts on a valid execution: %s%s", site, how == 2 && CASE.chk ? " (internal check, chk_level=1)" : "");
     recorder_reset(0);
@@ -630,10 +640,12 @@ static void enumerate_program(int pi, const pos_t * rs) {
 	  SLOT->schedules++;
 	  CASE.p = &p; CASE.s = &s; CASE.o = &o; CASE.tm = TIMINGS[tmi]; CASE.imp = imp; CASE.W = W;
 	  SLOT->pos.p = pi; SLOT->pos.tmi = tmi; SLOT->pos.imp = imp; SLOT->pos.W = W; SLOT->pos.nch = s.nch; memcpy(SLOT->pos.ch, s.ch, sizeof s.ch);
+	  int nf0 = resuming ? rs->nf : 1, oi0 = resuming ? rs->oi + 1 : 0;
 	  if (resuming && rs->have_base) { HAVE_BASE = 1; memcpy(BASE, rs->base, sizeof BASE); } else HAVE_BASE = 0;
-	  for (int nf = resuming ? rs->nf : 1; nf <= NFMAX; nf++)
-	    for (int oi = resuming ? rs->oi + 1 : 0; oi < NOPTS; oi++) {
-	      resuming = 0;
+	  resuming = 0;
+	  for (int nf = nf0; nf <= NFMAX; nf++, oi0 = 0) {
+	    if (oi0 == 0) HAVE_BASE = 0;
+	    for (int oi = oi0; oi < NOPTS; oi++) {
 	      CASE.nf = nf; CASE.oi = oi; CASE.opt = OPTS[oi];
 	      SLOT->pos.nf = nf; SLOT->pos.oi = oi;
 	      long c0 = N_CALLS;
@@ -642,6 +654,7 @@ static void enumerate_program(int pi, const pos_t * rs) {
 	      SLOT->pos.have_base = HAVE_BASE; if (HAVE_BASE) memcpy(SLOT->pos.base, BASE, sizeof BASE);
 	      if (SLOT->nsample < 3 && (SLOT->states % 9973) == 77) snprintf(SLOT->sample[SLOT->nsample++], 220, "%s", CASE.key);
 	    }
+	  }
 	  resuming = 0;
 	  SLOT->groups++;
 	  if (!sched_next(&s, &preflen)) break;
